@@ -10,15 +10,15 @@ import (
 
 func init() {
 	register(&Property{
-		ID:        "C19",
-		Title:     "In-memory object store answers queries like the bolt-backed store",
-		Technique: "static analysis: the bolt store's paging/count/comparator rules re-applied to objectz (sibling agreement), typed-nil-in-interface rule for the null test, use-before-nil-check contradiction rule, decision tables of the five object comparators compared with the bolt comparators' documented table",
-		LevelText: "Result equality of two engines is behavioural; what is decided is that the second engine repeats the first one's decisions: the same paging defaults and overflow-free window arithmetic, a total count independent of paging, comparators with the identical 24-case decision table and the id tie-break, a null test that can actually be true for boxed nil pointers, and no use of the iterator before its nil check.",
-		LevelNote: "Trusted: go/types, x/tools SSA, llrb, the DECIDE interpreter. Not decided: evaluation of filters on real objects (shared ast code: C01), iteration order of the caller's iterator.",
-		DesignRef: "DESIGN.md C19",
+		ID:          "C19",
+		Title:       "In-memory object store answers queries like the bolt-backed store",
+		Technique:   "static analysis: the bolt store's paging/count/comparator rules re-applied to objectz (sibling agreement), typed-nil-in-interface rule for the null test, use-before-nil-check contradiction rule, decision tables of the five object comparators compared with the bolt comparators' documented table",
+		LevelText:   "Result equality of two engines is behavioural; what is decided is that the second engine repeats the first one's decisions: the same paging defaults and overflow-free window arithmetic, a total count independent of paging, comparators with the identical 24-case decision table and the id tie-break, a null test that can actually be true for boxed nil pointers, and no use of the iterator before its nil check.",
+		LevelNote:   "Trusted: go/types, x/tools SSA, llrb, the DECIDE interpreter. Not decided: evaluation of filters on real objects (shared ast code: C01), iteration order of the caller's iterator.",
+		DesignRef:   "DESIGN.md C19",
 		Explanation: "Sites: objectz.scanner.setPaging, memSortingScanner.Scan, ObjectCursor.IsNil and all ObjectSymbol.Eval implementers, the five object*SymbolComparator.compare methods, ObjectStore.newRowComparator.",
-		Trusted:   []string{"go/types", "golang.org/x/tools/go/ssa v0.29.0", "github.com/biogo/store/llrb"},
-		Rules:     rulesC19,
+		Trusted:     []string{"go/types", "golang.org/x/tools/go/ssa v0.29.0", "github.com/biogo/store/llrb"},
+		Rules:       rulesC19,
 		Controls: []controlExpect{
 			{"C19.NULL", "zzControlBadIsNilC19", true},
 		},
@@ -48,6 +48,7 @@ func ruleC19Null(c *Ctx) {
 	evalM := p.Method("objectz", "ObjectSymbol", "Eval")
 	boxes := 0
 	total := 0
+	var boxed []types.Type
 	for _, f := range cg.Implementers(evalM) {
 		fn := p.SSA.FuncValue(f)
 		if fn == nil {
@@ -58,6 +59,15 @@ func ruleC19Null(c *Ctx) {
 			if mi, ok := r.Results[0].(*ssa.MakeInterface); ok {
 				if _, isPtr := mi.X.Type().Underlying().(*types.Pointer); isPtr {
 					boxes++
+					dup := false
+					for _, b := range boxed {
+						if types.Identical(b, mi.X.Type()) {
+							dup = true
+						}
+					}
+					if !dup && !isControl(FnName(fn)) {
+						boxed = append(boxed, mi.X.Type())
+					}
 				}
 			}
 		}
@@ -107,6 +117,40 @@ func ruleC19Null(c *Ctx) {
 			}
 			if ri.Reaches(r) {
 				ok = false
+			}
+		}
+		// an inspection by type assertions must cover every pointer type the symbols can box
+		usesReflect := false
+		var asserted []types.Type
+		for _, b := range fn.Blocks {
+			for _, in := range b.Instrs {
+				switch x := in.(type) {
+				case *ssa.TypeAssert:
+					if val != nil && x.X == val {
+						asserted = append(asserted, x.AssertedType)
+					}
+				case ssa.CallInstruction:
+					if cal, _ := calleeOf(x.Common()); cal != nil && cal.Pkg() != nil && cal.Pkg().Path() == "reflect" {
+						usesReflect = true
+					}
+				}
+			}
+		}
+		if ok && !usesReflect && !isControl(name) {
+			for _, bt := range boxed {
+				covered := false
+				for _, at := range asserted {
+					if types.Identical(at, bt) {
+						covered = true
+					}
+				}
+				if !covered {
+					ok = false
+					c.Bad("C19.NULL", name+": "+bt.String(), p.Pos(fn.Pos()), "the null test inspects boxed pointers by type assertion but does not cover "+bt.String()+", which a symbol kind can return: a null field of that type is never reported as null")
+				}
+			}
+			if !ok {
+				continue
 			}
 		}
 		c.Check(ok, "C19.NULL", name, p.Pos(fn.Pos()), "every answer other than `true` is given after inspecting the boxed pointer (reflect / type assertion)",
